@@ -224,8 +224,14 @@ def c07(ctx, res):
     cp = corpus(ctx)
     d = _dir(ctx, "c07")
     cases = []
+    forms = set()
     for e in cp["emit_fail"]:
         cases.append((e["source"], e["stack"], "emit_fail"))
+        forms.add(e["form"])
+    res.extra["emit_fail_forms"] = sorted(forms)
+    for f in ("BR", "LD", "LDI", "LEA", "ST", "STI", "JSR", "CALL"):
+        if f in forms:
+            res.cls("emit_fail_form:" + f)
     for e in cp["mixed"]:
         cases.append((e["source"], e["uses_stack_ext"], "mixed:" + e["verdict"]))
         if e["uses_stack_ext"]:
@@ -277,7 +283,7 @@ def c07(ctx, res):
         if ix % 40 == 0:
             res.samples.append({"source": src[:400], "stack_flag": stack, "check": oc, "compile": om, "run_exit": run.rc})
     res.require(["tag:emit_fail", "tag:mixed", "tag:valid", "tag:stack_ext_without_flag", "flag:stack", "flag:none",
-                 "both_accept", "both_reject"], "L2")
+                 "both_accept", "both_reject"] + ["emit_fail_form:" + f for f in ("BR", "LD", "LDI", "LEA", "ST", "STI", "JSR", "CALL")], "L2")
     # ---- watch: every re-check equals a fresh check
     hist_n = 1 if not ctx.thorough() else 12
     for h in range(hist_n):
